@@ -48,7 +48,7 @@ func init() {
 		return f["for-multi"] > 0 || f["if-elseif-later"] > 0 || f["for-if-rejected"] > 0 || f["for-else"] > 0
 	})
 	p.Run = func(c *Ctx) {
-		cfg := gen.Cfg{ExprDepth: 2, BodyLen: 3, Nest: 4, Calls: true, Carriers: true, If: true, For: true, LoopMeta: true, ForIf: true, NonIterable: true}
+		cfg := gen.Cfg{ExprDepth: 2, BodyLen: 3, Nest: 4, Calls: true, Carriers: true, If: true, For: true, LoopMeta: true, ForIf: true, NonIterable: true, Collide: true}
 		sub.Rapid(c, c.Share(c.Pick(25000, 1000000)), progGen(cfg))
 	}
 	Register(p)
